@@ -57,12 +57,23 @@ def c02_stop(when: int, d: int, v: int, f1: int, p1: int, f2: int, p2: int) -> b
         if var == 'on_demand':
             # started by the first connection on a managed socket (a background start, paced 0.3 s apart)
             from circus.sockets import CircusSocket
-            wa = w.mk_watcher('a', numprocesses=2, graceful_timeout=0.2, warmup_delay=0.3, on_demand=True, use_sockets=True)
-            w.boot([wa, wb], check_delay=1.0, sockets=[CircusSocket(name='web', host='127.0.0.1', port=0)])
+            pause = S.get('od_phase') == 'pause'
+            wa = w.mk_watcher('a', numprocesses=1 if pause else 2, graceful_timeout=0.2, warmup_delay=0 if pause else 0.3, on_demand=True,
+                              use_sockets=True, priority=5)
+            ws = [wa, wb]
+            if pause:
+                # a second on_demand watcher waits behind a in the start order; the arbiter paces watchers 0.5 s apart
+                ws.append(w.mk_watcher('c', numprocesses=1, graceful_timeout=0.2, on_demand=True, use_sockets=True, priority=1))
+            w.boot(ws, check_delay=1.0, warmup_delay=0.5 if pause else 0, sockets=[CircusSocket(name='web', host='127.0.0.1', port=0)])
             w.select_result = [w.arbiter.sockets['web'].fileno()]
-            w.run_for(1.05)                                   # the periodic check sees the connection and starts the watcher
+            if pause:
+                w.run_until(lambda: bool(k.alive_pids('a')), max_time=3.0)
+            else:
+                w.run_for(1.05)                               # the periodic check sees the connection and starts the watcher
             w.select_result = []                              # ... which is then served: no further socket event
-            if S.get('od_phase') == 'active':
+            if pause:
+                w.run_for(0.1)                                # a is up; the background start is in its pause before the next watcher
+            elif S.get('od_phase') == 'active':
                 w.run_for(1.0)
                 k.external_kill(k.alive_pids('a')[0])        # one worker dies: the watcher stays up with the other one
                 w.run_for(1.0)
@@ -97,7 +108,7 @@ def c02_stop(when: int, d: int, v: int, f1: int, p1: int, f2: int, p2: int) -> b
                 req = w.send('quit', waiting=True)
             if req_kind == REQ_QUIT:
                 w.run_until(lambda: all(x.is_stopped() for x in (wa, wb)) and not k.workers(None), max_time=30.0)
-                w.run_for(0.3)
+                w.run_for(1.0 if var == 'on_demand' else 0.3)
             else:
                 w.run_until(lambda: bool(req.replies), max_time=60.0)
             k.injections = [i for i in k.injections if i.get('done')]
@@ -128,7 +139,7 @@ def c02_stop(when: int, d: int, v: int, f1: int, p1: int, f2: int, p2: int) -> b
                     rt.note('status=%r numprocesses=%r', r.reply, n.reply)
                     ok = False
             if req_kind == REQ_QUIT:
-                for tag in ('a', 'b'):
+                for tag in ('a', 'b', 'c'):
                     if k.workers(tag):
                         rt.note('quit left workers of %s: %r', tag, [p.pid for p in k.workers(tag)])
                         ok = False
@@ -315,6 +326,8 @@ def plan(tier):
         for ph in ('starting', 'active'):
             for req in ((REQ_STOP, REQ_QUIT) if q else (REQ_STOP, REQ_RESTART, REQ_RM, REQ_QUIT)):
                 sh.append({'req': req, 'beh': beh, 'K': 1 if req == REQ_STOP else 0, 'whenmax': 0, 'dmax': 6, 'var': 'on_demand', 'od_phase': ph})
+    for beh in (0, 2):
+        sh.append({'req': REQ_QUIT, 'beh': beh, 'K': 0, 'whenmax': 0, 'dmax': 4, 'var': 'on_demand', 'od_phase': 'pause'})
     for kf in (0, 1, 2):
         sh.append({'req': REQ_STOP, 'n0': 2, 'beh': 0, 'K': 0, 'whenmax': 0, 'killfail': kf})
         sh.append({'req': REQ_STOP, 'n0': 2, 'beh': 2, 'K': 0, 'whenmax': 0, 'killfail': kf})
